@@ -85,6 +85,18 @@ def vectors(planes):
         # points on the axis line through the origin: t*axis ; plane 7 at t7 = d7/(n7.axis), plane 8 at t8
         t7 = n.div(d7, n.dot(n7c, axis))
         t8 = n.div(d8, n.dot(n8c, axis))
+        # oblique prism (end planes not orthogonal to the axis): the in-plane translations must map the end planes
+        # onto themselves, i.e. a1, a2 are parallel to them (sheared along the axis); a right prism is unchanged
+        den = n.dot(n7c, axis)
+        sheared = []
+        for m in vecs:
+            dm = n.dot(n7c, m)
+            if not n.is_sym(dm) and dm == 0:
+                sheared.append(m)
+            else:
+                tt = n.div(dm, den)
+                sheared.append(tuple(n.sub(mk, n.mul(tt, ak)) for mk, ak in zip(m, axis)))
+        vecs = sheared
         vecs.append(tuple(n.mul(n.sub(t7, t8), c) for c in axis))
     return vecs
 
